@@ -34,7 +34,7 @@ InputOK ==
            /\ ExportWF(Case.input[k], Four) /\ ExportSid(Case.input[k]) = Case.sids[k]
            /\ ProjFile(DecodeExport(Case.input[k], Four)) = CarryExport(T, {}, "-", Four)
       [] Case.fmt = "tigerxml" ->
-           /\ TigerWF(Case.input[k]) /\ ProjFile(DecodeTiger(Case.input[k])) = CarryTiger(T)
+           /\ TigerWF(Case.input[k]) /\ ProjFile(DecodeTiger(Case.input[k])) = CarryTigerIn(T)
       [] OTHER -> TRUE
 
 YieldErrs(e, k) ==
